@@ -93,7 +93,12 @@ class Explorer(object):
         self.prefix = ''
 
     # -- naming ---------------------------------------------------------
-    def fresh_name(self, hint):
+    def fresh_name(self, hint, *key_terms):
+        """Name of a fresh symbol.  With key terms the symbol is a *function*
+        of them (same name wherever the same term is rounded / measured), so
+        its defining constraint can be asserted globally."""
+        if key_terms:
+            return '%s!%s' % (hint, '_'.join(tm.digest(k) if isinstance(k, T) else str(k) for k in key_terms))
         self.counter += 1
         return '%s%s!%d' % (self.prefix + '/' if self.prefix else '', hint, self.counter)
 
@@ -177,8 +182,12 @@ class Explorer(object):
                 self.model = m2 if m2 is not None else self.model
                 alt_model = None
         if can_t and can_f:
-            value = True if hint is None else hint
+            # canonical order (True first) so path numbering does not depend on
+            # solver models
+            value = True
             rec = Rec(term, value, False)
+            if hint is False:
+                self.model = alt_model
             self.solver.push()
             rec.framed = True
             self.solver.add(tm.to_z3(term if value else tm.not_(term)))
@@ -299,8 +308,10 @@ class Explorer(object):
             self.records = []
 
     def event(self, *e):
+        # the trailing element is the number of decision records consumed
+        # before the event (orders reads relative to decisions)
         if self.events is not None:
-            self.events.append(e)
+            self.events.append(e + (self.pos,))
 
 
 # ======================================================================
@@ -593,9 +604,20 @@ def sym_round(x, ndigits=None):
         if abs(frac - Fraction(1, 2)) > EPS * scale:
             k = fl + (1 if frac > Fraction(1, 2) else 0)
             return wrap(tm.I(k), int) if ndigits is None else wrap(tm.R(Fraction(k) / scale), float)
+    if ndigits is not None:
+        g = tm.grid_places(t)
+        if g is not None and g <= p:
+            # operand already on the 10^-p grid: decimal rounding is the identity
+            return wrap(t, float)
     ex = cur()
-    k = tm.var(ex.fresh_name('rnd'), 'I')
-    r = tm.div(tm.to_real(k), tm.R(scale))
+    if getattr(ex, 'relaxed', False) and ndigits is not None:
+        # relaxed model: the rounded value is any real inside the band
+        # (drops integrality; still over-approximates every float outcome)
+        k = None
+        r = tm.var(ex.fresh_name('rndr', t, p), 'R')
+    else:
+        k = tm.var(ex.fresh_name('rnd', t, p, 'i' if ndigits is None else 'f'), 'I')
+        r = tm.div(tm.to_real(k), tm.R(scale))
     band = Fraction(1, 2) / scale + EPS
     ex.assume(tm.and_(tm.le(tm.sub(r, t), tm.R(band)), tm.le(tm.sub(t, r), tm.R(band))))
     if ndigits is None:
@@ -707,8 +729,9 @@ class SymStr(object):
 
     def replace(self, a, b, *rest):
         ex = cur()
-        e = tm.var(ex.fresh_name('repl_empty'), 'B')
-        bl = tm.var(ex.fresh_name('repl_blank'), 'B')
+        key = 'r%d' % (abs(hash((a, b))) % 10 ** 6)
+        e = tm.var(ex.fresh_name('repl_empty', self.ident, key), 'B')
+        bl = tm.var(ex.fresh_name('repl_blank', self.ident, key), 'B')
         ex.assume(tm.and_(tm.implies(self.empty, e), tm.implies(e, bl)))
         return self._derive('replace_%d' % (abs(hash((a, b))) % 10 ** 6), e, bl)
 
@@ -725,8 +748,9 @@ class SymStr(object):
 
     def __getitem__(self, k):
         ex = cur()
-        e = tm.var(ex.fresh_name('slice_empty'), 'B')
-        bl = tm.var(ex.fresh_name('slice_blank'), 'B')
+        kk = 's%s' % (abs(hash((k.start, k.stop, k.step) if isinstance(k, slice) else k)) % 10 ** 6)
+        e = tm.var(ex.fresh_name('slice_empty', self.ident, kk), 'B')
+        bl = tm.var(ex.fresh_name('slice_blank', self.ident, kk), 'B')
         ex.assume(tm.and_(tm.implies(self.empty, e), tm.implies(self.blank, bl), tm.implies(e, bl)))
         if isinstance(k, slice):
             key = (k.start, k.stop, k.step)
@@ -817,7 +841,7 @@ def fresh_int(name, lo=None, hi=None, ex=None):
 def fresh_money(name, places=2, lo=None, hi=None, ex=None, grid=True):
     """A float lying on the 10^-places grid (k/10^places, k Int)."""
     ex = ex or cur()
-    if grid:
+    if grid and not getattr(ex, 'relaxed', False):
         k = tm.var(name + '#k', 'I')
         t = tm.div(tm.to_real(k), tm.R(Fraction(10) ** places))
     else:
